@@ -159,11 +159,10 @@ def eval_C08(case):
         fail = f"Cauchy point differs from the first local minimiser along the projected path by {float(np.max(np.abs(xcp - xr))):.3e} (t*={tr!r})"
     elif mod(xcp) > 1e-12 * (1 + abs(g @ g)):
         fail = f"model value at the Cauchy point {float(mod(xcp)):.3e} > model value at x"
+    with np.errstate(all="ignore"):
+        t = np.where(g < 0, (x - ub) / np.where(g == 0, 1, g), np.where(g > 0, (x - lb) / np.where(g == 0, 1, g), np.inf))
     if fail is None and xr is not None:
         # pinned exactly: every variable whose breakpoint was passed sits exactly on its bound
-        t = np.full(n, np.inf)
-        with np.errstate(all="ignore"):
-            t = np.where(g < 0, (x - ub) / np.where(g == 0, 1, g), np.where(g > 0, (x - lb) / np.where(g == 0, 1, g), np.inf))
         passed = t < tr * (1 - 1e-9)
         bound = np.where(g < 0, ub, lb)
         if passed.any() and not beq(xcp[passed] + 0.0, bound[passed] + 0.0):
